@@ -164,13 +164,15 @@ theorem padAlign_take (d : Bytes) (a : Nat) : (padAlign d a).take d.length = d :
 
 /-! ### closed forms of the generated arithmetic -/
 
+/-- closes goals about the translated Python arithmetic: floor division / modulo by positive literals on non-negative
+    operands become `/`, `%`, then linear arithmetic (robust against rewrites of the source that stay in this fragment) -/
+macro "py_arith" : tactic =>
+  `(tactic| (simp (disch := omega) only [pyMod, pyFloorDiv, Int.fdiv_eq_ediv_of_nonneg, Int.fmod_eq_emod_of_nonneg] <;> omega))
+
 theorem alignOffset_nat (n : Nat) : HabFuns.alignOffset (n : Int) = .ok ((csfAbs n : Nat) : Int) := by
-  show (Except.ok (pyFloorDiv (((n : Int) + (16 - pyMod (n : Int) 16)) + 4096 - 1) 4096 * 4096) : PyRes Int) = _
-  unfold csfAbs pyMod pyFloorDiv
-  congr 1
-  have h1 : Int.fmod (n : Int) 16 = (n : Int) % 16 := Int.fmod_eq_emod_of_nonneg _ (by omega)
-  rw [h1, Int.fdiv_eq_ediv_of_nonneg _ (by omega)]
-  omega
+  unfold HabFuns.alignOffset csfAbs
+  refine congrArg Except.ok ?_
+  first | py_arith | omega
 
 theorem csfAbs_gt (n : Nat) : n < csfAbs n := by
   unfold csfAbs
@@ -237,15 +239,10 @@ theorem ivtCsfN_eq (flags ils n ivtOff self : Nat) (h : flags = 0 ∨ flags = 8 
     simp; omega
 
 theorem secretKeyLocN_eq (ils n start : Nat) : secretKeyLocN ils n start = start + csfAbs (ils + n) + 0x2000 := by
-  have e : ((ils : Int) + (n : Int)) = ((ils + n : Nat) : Int) := by omega
-  have h := alignOffset_nat (ils + n)
-  have : HabFuns.secretKeyLocation ils n start = .ok ((start : Int) + ((csfAbs (ils + n) : Nat) : Int) + 8192) := by
-    show (Except.ok ((start : Int) + (pyFloorDiv ((((ils : Int) + n) + (16 - pyMod ((ils : Int) + n) 16)) + 4096 - 1) 4096 * 4096) + 8192) : PyRes Int) = _
-    rw [e]
-    have h' : (Except.ok (pyFloorDiv ((((ils + n : Nat) : Int) + (16 - pyMod ((ils + n : Nat) : Int) 16)) + 4096 - 1) 4096 * 4096) : PyRes Int)
-        = .ok ((csfAbs (ils + n) : Nat) : Int) := h
-    injection h' with h'
-    rw [h']
+  have : HabFuns.secretKeyLocation ils n start = .ok (((start + csfAbs (ils + n) + 0x2000 : Nat)) : Int) := by
+    unfold HabFuns.secretKeyLocation csfAbs
+    refine congrArg Except.ok ?_
+    first | py_arith | omega
   unfold secretKeyLocN
   rw [this]
   simp only [natOf]
